@@ -260,9 +260,76 @@ def r18_5(ctx):
         if isinstance(v, ast.Subscript):
             continue
         other.append(norm(r))
-    ctx.check(mincall is not None and not other, f.fq, "return min(...)", f.where, "match returns the result of builtin min (or a cached copy of it)",
-              f"Palette.match returns something other than the builtin min(...) over the palette indices: {other}")
+    # shape B: distances = [D(q.., entry(i)) for i in range(len(self._colors))]; return distances.index(min(distances))
+    # (the index of the first minimum - the same element builtin min(range, key=...) picks)
+    shape_b = None
     if mincall is None:
+        for r in rets:
+            v = r.value
+            if isinstance(v, ast.Name) and len(defs.get(v.id, [])) == 1:
+                v = defs[v.id][0]
+            if (isinstance(v, ast.Call) and isinstance(v.func, ast.Attribute) and v.func.attr == "index" and isinstance(v.func.value, ast.Name) and len(v.args) == 1
+                    and isinstance(v.args[0], ast.Call) and call_name(v.args[0]) == "min" and len(v.args[0].args) == 1 and not v.args[0].keywords and norm(v.args[0].args[0]) == v.func.value.id):
+                lst = defs.get(v.func.value.id, [])
+                if len(lst) == 1 and isinstance(lst[0], ast.ListComp) and len(lst[0].generators) == 1 and not lst[0].generators[0].ifs:
+                    shape_b = (r, lst[0])
+        if shape_b is not None:
+            other = [o for o in other if o != norm(shape_b[0])]
+    ctx.check((mincall is not None or shape_b is not None) and not other, f.fq, "return min(...)", f.where, "match returns the result of builtin min (or a cached copy of it)",
+              f"Palette.match returns something other than the builtin min(...) over the palette indices: {other}")
+    if mincall is None and shape_b is None:
+        return
+    if shape_b is not None:
+        lc = shape_b[1]
+        ge = lc.generators[0]
+        ok = isinstance(ge.iter, ast.Call) and call_name(ge.iter) == "range" and len(ge.iter.args) == 1 and norm(ge.iter.args[0]) == "len(self._colors)" and isinstance(ge.target, ast.Name)
+        ctx.check(ok, f.fq, short(lc), f"{f.module.relpath}:{lc.lineno}", "one distance per index of self._colors, in index order",
+                  f"the distances are computed over `{norm(ge.iter)}`, not over range(len(self._colors)): list positions are not palette indices")
+        el = lc.elt
+        D = f.module.functions.get(el.func.id) if isinstance(el, ast.Call) and isinstance(el.func, ast.Name) else None
+        if not ok or D is None:
+            raise AnalysisError("Palette.match: the list of distances is not built by a module-level distance function")
+        q_names = None
+        for n in walk_local(f.node):
+            if isinstance(n, ast.Assign) and isinstance(n.targets[0], ast.Tuple) and norm(n.value) == color_p:
+                q_names = [x.id for x in n.targets[0].elts]
+        aliases = {k: v[0] for k, v in defs.items() if len(v) == 1}
+        qpos, epos = {}, None
+        for i, a in enumerate(el.args):
+            if isinstance(a, ast.Name) and q_names and a.id in q_names:
+                qpos[q_names.index(a.id)] = D.params[i]
+            else:
+                callee = a.func if isinstance(a, ast.Call) else (a.value if isinstance(a, ast.Subscript) else None)
+                if isinstance(callee, ast.Name) and callee.id in aliases:
+                    callee = aliases[callee.id]
+                arg0 = (a.args[0] if isinstance(a, ast.Call) and a.args else (a.slice if isinstance(a, ast.Subscript) else None))
+                if callee is not None and "self._colors" in norm(callee) and arg0 is not None and norm(arg0) == ge.target.id:
+                    epos = D.params[i]
+        if q_names is None or len(qpos) != 3 or epos is None:
+            raise AnalysisError("Palette.match: cannot relate the arguments of the distance function to the query components and the palette entry")
+        dq = [qpos[0], qpos[1], qpos[2]]
+        de = None
+        for n in walk_local(D.node):
+            if isinstance(n, ast.Assign) and isinstance(n.targets[0], ast.Tuple) and norm(n.value) == epos:
+                de = [x.id for x in n.targets[0].elts]
+        if de is None or len(de) != 3:
+            raise AnalysisError("Palette.match: the distance function does not unpack the palette entry into three components")
+        pairs = 0
+        for n in ast.walk(D.node):
+            if isinstance(n, ast.BinOp) and isinstance(n.op, (ast.Sub, ast.Add)) and isinstance(n.left, ast.Name) and isinstance(n.right, ast.Name):
+                l, r_ = n.left.id, n.right.id
+                if (l in dq and r_ in de) or (l in de and r_ in dq):
+                    qi = dq.index(l) if l in dq else dq.index(r_)
+                    ei = de.index(r_) if r_ in de else de.index(l)
+                    pairs += 1
+                    ctx.check(qi == ei, D.fq, norm(n), f"{f.module.relpath}:{n.lineno}", f"component {qi} of the query paired with component {ei} of the entry",
+                              f"distance mixes component {qi} of the query with component {ei} of the palette entry: `{norm(n)}`")
+        ctx.floor(pairs, 3, "component differences in the distance function")
+        gi = ctx.repo.cls("palette:Palette").method("__getitem__")
+        if gi is not None:
+            r2 = [x for x in walk_local(gi.node) if isinstance(x, ast.Return)]
+            ok = len(r2) == 1 and "self._colors[" + gi.params[1] + "]" in norm(r2[0].value)
+            ctx.check(ok, gi.fq, norm(r2[0]) if r2 else "?", gi.where, "palette[n] is entry n", "Palette.__getitem__ does not return entry `number`")
         return
     it = mincall.args[0] if mincall.args else None
     ok = isinstance(it, ast.Call) and call_name(it) == "range" and len(it.args) == 1 and norm(it.args[0]) == "len(self._colors)"
